@@ -12,6 +12,9 @@ Perm, which C01 explores).  Every sub-check enumerates a stated finite space com
   dense    texts with very many classical occurrences: all layered permutations and their reverses
            of length 7..10 (thorough ..11) x 145 patterns (many shadings per underlying pattern,
            queried one after the other on the same text object)
+  scale    pattern nearly as long as the text (n - k <= 4 at n = 9..12; n - k <= 18 at n = 31..34;
+           n - k <= 2 at n = 255..258) on structured texts: sizes that straddle thresholds of the
+           runtime (set tables of 8 and 32 slots, small-int cache)
   biv      every BivincularPatt / VincularPatt / CovincularPatt of length <= 3 (all adjacency
            sets) against the adjacency oracle, which never looks at shadings
   bivreq   get_adjacent_requirements describes the same pattern; argument order/iterators
@@ -105,6 +108,9 @@ def spec_shading(spec):
 def naive_ref(spec, text):
     """One-shot definitional answer (used by replay and by the self-check)."""
     kind, patt, a, b = spec
+    if len(text) > 8:
+        # combinations + standardisation is exponential here: prefix extension (ref_c03)
+        return X.mesh_from_table(X.mesh_table_dfs(patt, text), spec_shading(spec))
     if kind == "mesh":
         return R.mesh_occurrences(patt, a, text)
     if kind == "perm":
@@ -387,6 +393,119 @@ def shard_allmask(shard):
 def shard_selfcheck(shard):
     part = Partial()
     part.bump("oracle_selfcheck_comparisons", X.selfcheck(*shard))
+    part.bump("oracle_selfcheck_comparisons", X.selfcheck_dfs(4, 6))
+    return part
+
+
+# --------------------------------------------------------------------------------------------
+# scale: pattern nearly as long as the text, at lengths that straddle thresholds of the runtime
+# (set tables of 8 / 32 slots, small-int cache at 256)
+# --------------------------------------------------------------------------------------------
+
+def coprime_multipliers(n, count):
+    import math as _m
+    return [q for q in range(2, n) if _m.gcd(q, n) == 1][:count]
+
+
+def scale_texts(n, rigid_only=False):
+    """Structured texts of length n.  rigid: i -> q*i mod n (few occurrences of long
+    sub-patterns).  Otherwise also: identity, reverse identity, identity with one adjacent
+    transposition (every position), rotations of the identity, two-block layered perms and their
+    reverses, 'first value q then decreasing', direct sums of 10 / 021 / 120 / 201 with a long
+    increasing run (both orders)."""
+    out = [tuple(q * i % n for i in range(n)) for q in coprime_multipliers(n, 3)]
+    if not rigid_only:
+        ident = tuple(range(n))
+        out += [ident, ident[::-1]]
+        for i in range(n - 1):
+            t = list(ident)
+            t[i], t[i + 1] = t[i + 1], t[i]
+            out.append(tuple(t))
+        out += [tuple((i + r) % n for i in range(n)) for r in range(1, n)]
+        for c in range(1, n):
+            t = tuple(range(c - 1, -1, -1)) + tuple(range(n - 1, c - 1, -1))
+            out += [t, t[::-1]]
+        for q in sorted({0, 1, n // 2, n - 2, n - 1}):
+            out.append((q,) + tuple(v for v in range(n - 1, -1, -1) if v != q))
+        for small in ((1, 0), (0, 2, 1), (1, 2, 0), (2, 0, 1)):
+            m = n - len(small)
+            out.append(R.direct_sum(small, tuple(range(m))))
+            out.append(R.direct_sum(tuple(range(m)), small))
+    seen, res = set(), []
+    for t in out:
+        if t not in seen and R.is_perm(t):
+            seen.add(t)
+            res.append(t)
+    return res
+
+
+def scale_deletions(n, dmax):
+    """Sets of positions to delete from the text (the pattern is what is left).  Short texts:
+    every set of 1..dmax positions out of {0, 1, n//2, n-2, n-1}.  Long texts (n > 16): the first
+    d entries of a fixed list that starts with the last position, for d = 1, 2, 3, 4, 5, 6, 12, 18
+    (d <= dmax)."""
+    if n <= 16:
+        probe = sorted({0, 1, n // 2, n - 2, n - 1})
+        return [D for d in range(1, dmax + 1) for D in itertools.combinations(probe, d)]
+    prio = [n - 1, 0, 8, n - 2, 1, 16] + [i for i in range(2, n - 2, 2) if i not in (8, 16)]
+    return [tuple(sorted(prio[:d])) for d in (1, 2, 3, 4, 5, 6, 12, 18) if d <= dmax]
+
+
+def scale_specs(patt, cells):
+    """Shadings for a long pattern, built around the cells where the deleted points lie:
+    nothing; each such cell and its four neighbours alone; the vincular / covincular / bivincular
+    requirements through these cells and at both ends."""
+    k = len(patt)
+    out = [mesh_spec(patt, [])]
+    near = set()
+    for (x, y) in cells:
+        for (u, v) in ((x, y), (x - 1, y), (x + 1, y), (x, y - 1), (x, y + 1)):
+            if 0 <= u <= k and 0 <= v <= k:
+                near.add((u, v))
+    out += [mesh_spec(patt, [c]) for c in sorted(near)]
+    ends = {0, 1, k - 1, k} & set(range(k + 1))
+    for c in sorted(ends | {x for x, _ in cells}):
+        out.append(("vinc", patt, (c,), ()))
+    for r in sorted(ends | {y for _, y in cells}):
+        out.append(("covinc", patt, (), (r,)))
+    for (x, y) in sorted(cells):
+        out.append(("biv", patt, (x,), (y,)))
+    return out
+
+
+def shard_scale(shard):
+    n, tlo, thi, dmax, rigid_only = shard
+    lib = _lib()
+    part = Partial()
+    for t in scale_texts(n, rigid_only)[tlo:thi]:
+        T = lib.Perm(t)
+        done = set()
+        for D in scale_deletions(n, dmax):
+            keep = [i for i in range(n) if i not in D]
+            patt = X.std_sorted([t[i] for i in keep])
+            cells = frozenset(R.cell_of(keep, t, i) for i in D)
+            key = (patt, cells)
+            if key in done:
+                continue
+            done.add(key)
+            table = X.mesh_table_dfs(patt, t)
+            assert tuple(keep) in [idx for idx, _ in table]
+            for spec in scale_specs(patt, cells):
+                try:
+                    obj = make(spec)
+                except Exception as exc:  # noqa
+                    part.violation("construct", spec_case(spec), {"exception": repr(exc)})
+                    continue
+                ref = X.mesh_from_table(table, spec_shading(spec))
+                check_pair(part, "scale", spec, obj, t, T, ref, n <= 10 and len(D) == 1)
+                nt = 1 if 0 < len(ref) < len(table) else 0
+                part.add(1, nt)
+                part.bump("scale:pairs")
+                part.bump("scale:n=%d" % n)
+                if nt and not part.samples and n >= 33:
+                    part.sample({"text_length": n, "pattern_length": len(patt), "deleted": list(D),
+                                 "spec": spec_case(spec)["kind"], "occurrences": len(ref),
+                                 "classical_occurrences": len(table)}, cap=1)
     return part
 
 
@@ -563,6 +682,29 @@ def run(ctx, only=None):
                         "all shadings of one underlying pattern are queried one after the other on the same "
                         "text object" % len(_FAM["dense"])}
 
+    if want("scale"):
+        small = (9, 10) if quick else (9, 10, 11, 12)
+        mid = (33, 34) if quick else (31, 32, 33, 34)
+        big = (257,) if quick else (255, 256, 257, 258)
+        for n in small:
+            nt = len(scale_texts(n))
+            jobs += [(shard_scale, (n, lo, min(nt, lo + 2), 4, False)) for lo in range(0, nt, 2)]
+        for n in mid:
+            jobs += [(shard_scale, (n, i, i + 1, 18, True)) for i in range(3)]     # rigid texts, d <= 18
+            nt = len(scale_texts(n))
+            jobs += [(shard_scale, (n, lo, min(nt, lo + 8), 2, False)) for lo in range(3, nt, 8)]
+        for n in big:
+            jobs += [(shard_scale, (n, i, i + 1, 2, True)) for i in range(3)]
+        ctx.bounds["scale"] = {
+            "what": "pattern = text minus d positions (so n - k = d), every shading of a family built around "
+                    "the cells of the deleted points (single cells, vincular/covincular/bivincular lines)",
+            "lengths": {"structured texts (identity, reverse, adjacent transpositions, rotations, 2-block layered, "
+                        "q then decreasing, small (+) long increasing, q*i mod n), d = 1..4 out of 5 probe positions":
+                        list(small),
+                        "q*i mod n (3 multipliers), d in 1,2,3,4,5,6,12,18; all structured texts with d <= 2": list(mid),
+                        "q*i mod n (3 multipliers), d in 1,2": list(big)},
+            "reference": "prefix-extension search (ref_c03.occurrences_dfs, cross-checked with combinations on S<=6) + cell_of"}
+
     if want("biv"):
         build_family("biv", fam_biv(3), ctx)
         top = 6 if quick else 7
@@ -611,7 +753,7 @@ def _dispatch(shard):
 def replay(ctx, rec):
     lib = _lib()
     sub, case = rec["sub"], rec["case"]
-    if sub in ("mesh", "mesh3", "mesh3all", "big", "codebase", "dense", "biv", "derived"):
+    if sub in ("mesh", "mesh3", "mesh3all", "big", "codebase", "dense", "scale", "biv", "derived"):
         spec = case_spec(case)
         t = tuple(case["text"])
         try:
